@@ -1441,3 +1441,56 @@ Proof.
   - now apply neg_cells_wf.
   - now apply abs_cells_wf.
 Qed.
+
+(* ================================================================== Part 6: comparisons refine NumPy's *)
+Lemma bool_ext (b1 b2 : bool) : (b1 = true <-> b2 = true) -> b1 = b2.
+Proof. destruct b1, b2; intros [H1 H2]; auto; try (symmetry; now apply H1); try (now apply H2). Qed.
+Lemma qcmp_compat c x x' y y' : x == x' -> y == y' -> qcmp c x y = qcmp c x' y'.
+Proof.
+  intros Hx Hy.
+  assert (E : Qeq_bool x y = Qeq_bool x' y').
+  { apply bool_ext. rewrite !Qeq_bool_iff. now rewrite Hx, Hy. }
+  assert (L1 : Qle_bool x y = Qle_bool x' y').
+  { apply bool_ext. rewrite !Qle_bool_iff. now rewrite Hx, Hy. }
+  assert (L2 : Qle_bool y x = Qle_bool y' x').
+  { apply bool_ext. rewrite !Qle_bool_iff. now rewrite Hx, Hy. }
+  destruct c; unfold qcmp, qeqb, qltb, qleb; congruence.
+Qed.
+Lemma qcmp_00 c : qcmp c 0 0 = match c with CEq | CGe | CLe => true | _ => false end.
+Proof. destruct c; reflexivity. Qed.
+Definition Rcq (c : cell) (q : Q) : Prop := dcell c == q.
+Lemma Rc_Rcq c q : Rc c q -> Rcq c q.
+Proof. intros [_ H]; exact H. Qed.
+Lemma qeqb_zero_present x : wfc x -> negb (present x) = qeqb (dcell x) 0.
+Proof.
+  destruct x as [v|]; cbn; intros H; auto. unfold qeqb. symmetry. apply not_true_is_false.
+  intros E. apply Qeq_bool_iff in E. contradiction.
+Qed.
+(* every branch of every comparison kernel computes dct.get(i, 0.) <op> other.get(i, 0.) *)
+Lemma cmp_cell_same c x y : wfc x -> wfc y ->
+  match c with CEq => eq_same_c x y | CNe => ne_same_c x y | _ => cmp_same_c c x y end = qcmp c (dcell x) (dcell y).
+Proof.
+  intros Hx Hy. destruct c; unfold eq_same_c, ne_same_c, cmp_same_c;
+    destruct x as [v|], y as [w|]; cbn in *; unfold qeqb, qltb, qleb in *; auto;
+    try (symmetry; apply not_true_is_false; intros E; apply Qeq_bool_iff in E; try (apply Hx; rewrite E; reflexivity); try (apply Hy; rewrite <- E; reflexivity); fail);
+    try (symmetry; apply negb_true_iff, not_true_is_false; intros E; apply Qeq_bool_iff in E; try (apply Hx; rewrite E; reflexivity); try (apply Hy; rewrite <- E; reflexivity); fail).
+Qed.
+Theorem cmp_sparse_same_refines c a a' b b' : Rv a a' -> Rv b b' -> length a = length b ->
+  rrel eq (cmp_sparse c a b) (np_cmp c a' b').
+Proof.
+  intros Ha Hb L. unfold np_cmp, np_bcast. rewrite <- (Rv_length _ _ Ha), <- (Rv_length _ _ Hb), L, Nat.eqb_refl.
+  rewrite map2M_pure.
+  assert (G : forall f, (forall x y, wfc x -> wfc y -> f x y = qcmp c (dcell x) (dcell y)) ->
+                        map2 f a b = map2 (qcmp c) a' b').
+  { intros f Hf. clear L. revert b b' Hb. induction Ha as [|x x' a a' [Hxw Hxd] Ha IH]; intros b b' Hb; cbn.
+    - destruct Hb; reflexivity.
+    - destruct Hb as [|y y' b b' [Hyw Hyd] Hb]; cbn; auto. rewrite Hf by auto. f_equal; auto. now apply qcmp_compat. }
+  unfold cmp_sparse, dispatch_sparse. rewrite L, Nat.eqb_refl.
+  destruct c; cbn; f_equal; apply G; intros x y Hx Hy.
+  - exact (cmp_cell_same CEq x y Hx Hy).
+  - exact (cmp_cell_same CNe x y Hx Hy).
+  - exact (cmp_cell_same CGt x y Hx Hy).
+  - exact (cmp_cell_same CLt x y Hx Hy).
+  - exact (cmp_cell_same CGe x y Hx Hy).
+  - exact (cmp_cell_same CLe x y Hx Hy).
+Qed.
